@@ -173,7 +173,7 @@ func runProgram(tree *vcompose.Node, pool []vgen.Blob, prog program, yieldSeed u
 		res.inconcl = fmt.Sprintf("harness: build %s: %v", tree, err)
 		return
 	}
-	defer b.Close()
+	defer b.Release()
 	sto := b.Root
 	sorted := make([]string, len(pool))
 	for i, pb := range pool {
@@ -462,7 +462,8 @@ func runProgram(tree *vcompose.Node, pool []vgen.Blob, prog program, yieldSeed u
 // common lock; a receive and a remove of the SAME ref by different clients can leave the blob in one of
 // them only, after which fetch/stat (cache first) and enumerate (origin only) disagree for good.
 // Signature: the tree contains a proxycache, the violation is about one ref, and the program has a
-// receive and a remove of that ref issued by two different clients.
+// remove of that ref by one client and a receive or a fetch (which re-populates the cache on a miss) of
+// it by a different client.
 func knownSig(tree *vcompose.Node, prog program, res caseResult) string {
 	has := false
 	for _, ty := range tree.Types() {
@@ -473,12 +474,14 @@ func knownSig(tree *vcompose.Node, prog program, res caseResult) string {
 	if !has || res.vioRef < 0 || len(res.items) > 0 {
 		return ""
 	}
-	recvBy, rmBy := map[int]bool{}, map[int]bool{}
+	// a remove of the ref by one client, and a receive OR a fetch of it (a fetch miss re-populates the
+	// cache from the origin) by a different client
+	touchBy, rmBy := map[int]bool{}, map[int]bool{}
 	for c, ops := range prog.Clients {
 		for _, o := range ops {
 			for _, ix := range o.Idx {
-				if ix == res.vioRef && o.Kind == "receive" {
-					recvBy[c] = true
+				if ix == res.vioRef && (o.Kind == "receive" || o.Kind == "fetch") {
+					touchBy[c] = true
 				}
 				if ix == res.vioRef && o.Kind == "remove" {
 					rmBy[c] = true
@@ -486,7 +489,7 @@ func knownSig(tree *vcompose.Node, prog program, res caseResult) string {
 			}
 		}
 	}
-	for c := range recvBy {
+	for c := range touchBy {
 		for d := range rmBy {
 			if c != d {
 				return "C14-proxycache-receive-remove-divergence"
@@ -658,7 +661,7 @@ func capsOf(tree *vcompose.Node) vcompose.Caps {
 	if err != nil {
 		return vcompose.Caps{Receive: true}
 	}
-	defer b.Close()
+	defer b.Release()
 	return b.Caps
 }
 
